@@ -74,6 +74,8 @@ func (d *SiteDef) Build() Site {
 			p.Script = []Resp{{Status: n.Code, Header: h, Body: "status"}}
 		case "fail5xx":
 			p.Script = []Resp{{Status: 500, Header: map[string]string{"Content-Type": "text/plain"}, Body: "oops"}}
+		case "fail5xx-big": // an error page of 1.5 MiB
+			p.Script = []Resp{{Status: 500, Header: map[string]string{"Content-Type": "text/html"}, Body: "<html>" + strings.Repeat("error ", 262144) + "</html>"}}
 		case "flaky":
 			for i := 0; i < n.FailN; i++ {
 				p.Script = append(p.Script, Resp{Status: 500, Header: map[string]string{"Content-Type": "text/plain"}, Body: "oops"})
@@ -213,7 +215,7 @@ func (d *SiteDef) Reference(seed string, opt Options) *Expect {
 					if n != nil {
 						code = n.Code
 					}
-				case "fail5xx":
+				case "fail5xx", "fail5xx-big":
 					code = 500
 				case "flaky":
 					if a < n.FailN {
